@@ -347,6 +347,13 @@ func init() {
 					cs = append(cs, fw.Case{ID: fmt.Sprintf("vd/%d", i), Kind: "vd", P: map[string]any{"i": i}})
 					cs = append(cs, fw.Case{ID: fmt.Sprintf("common/%d", i), Kind: "common", P: map[string]any{"i": i}})
 				}
+				np := 40
+				if !ctx.Quick {
+					np = 600
+				}
+				for i := 0; i < np; i++ {
+					cs = append(cs, fw.Case{ID: fmt.Sprintf("pair/%d", i), Kind: "pair", P: map[string]any{"i": i}})
+				}
 				reps := 2
 				if !ctx.Quick {
 					reps = 12
@@ -461,6 +468,114 @@ func init() {
 					o.Inc("documents_roundtripped")
 				case "common":
 					return c19Common(r, dir, fname)
+				case "pair":
+					// two documents read one after the other in the same process that differ in ONE
+					// value (same circuit digest, same everything else): the second assignment must
+					// differ from the first at exactly that position
+					if c.Int("i")%2 == 0 {
+						g := &docGen{r: r, expected: map[string]*big.Int{}}
+						capv := g.cap("ConstantSigmasCap", 1+r.Intn(17))
+						d := g.hash()
+						read := func(cv []string) (variables.VerifierOnlyCircuitData, bool) {
+							path, _ := writeDoc(dir, fname, map[string]any{"constants_sigmas_cap": cv, "circuit_digest": d.String()})
+							var vd variables.VerifierOnlyCircuitData
+							ok := true
+							func() {
+								defer func() {
+									if rr := recover(); rr != nil {
+										ok = false
+									}
+								}()
+								vd = variables.DeserializeVerifierOnlyCircuitData(types.ReadVerifierOnlyCircuitData(path))
+							}()
+							return vd, ok
+						}
+						v1, ok1 := read(capv)
+						k := r.Intn(len(capv))
+						nv := g.hash()
+						cap2 := append([]string(nil), capv...)
+						cap2[k] = nv.String()
+						v2, ok2 := read(cap2)
+						if !ok1 || !ok2 {
+							return fw.Violate("wellformed_document_refused", "verifier data pair "+c.ID)
+						}
+						o.Events += 2
+						l1, l2 := circ.Leaves(&v1), circ.Leaves(&v2)
+						if len(l1) != len(l2) {
+							return fw.Violate("leaf_count_differs", c.ID)
+						}
+						for i := range l1 {
+							same := new(big.Int).Mod(l1[i].Big(), bigR).Cmp(new(big.Int).Mod(l2[i].Big(), bigR)) == 0
+							isK := l1[i].Path == fmt.Sprintf("ConstantSigmasCap[%d]", k)
+							changed := new(big.Int).Mod(nv, bigR).Cmp(new(big.Int).Mod(g.expected[fmt.Sprintf("ConstantSigmasCap[%d]", k)], bigR)) != 0
+							if isK && changed && same {
+								return fw.Violate("second_document_not_reflected:verifier_data", fmt.Sprintf("%s: cap entry %d changed in the document (same digest) but the assignment did not", c.ID, k))
+							}
+							if isK && new(big.Int).Mod(l2[i].Big(), bigR).Cmp(new(big.Int).Mod(nv, bigR)) != 0 {
+								return fw.Violate("second_document_not_reflected:verifier_data", fmt.Sprintf("%s: cap entry %d", c.ID, k))
+							}
+							if !isK && !same {
+								return fw.Violate("unrelated_position_changed:verifier_data", l1[i].Path)
+							}
+						}
+						o.Inc("document_pairs_compared")
+						return o
+					}
+					doc, g, _ := genProofDoc(r)
+					if len(g.order) == 0 {
+						return fw.Outcome{Trivial: true}
+					}
+					path, _ := writeDoc(dir, fname, doc)
+					p1, ref1, _ := readProofGuard(path)
+					// flip one value in the JSON tree: re-generate the same document with the same seed and edit
+					b, _ := os.ReadFile(path)
+					dec := json.NewDecoder(strings.NewReader(string(b)))
+					dec.UseNumber()
+					var tree map[string]any
+					if err := dec.Decode(&tree); err != nil {
+						return fw.Inconcl(err.Error())
+					}
+					target := ""
+					if pis, ok := tree["public_inputs"].([]any); ok && len(pis) > 0 {
+						k := r.Intn(len(pis))
+						pis[k] = json.Number("12345678901")
+						target = fmt.Sprintf("PublicInputs[%d].Limb", k)
+					} else if wc, ok := jget(tree, "proof", "wires_cap").([]any); ok && len(wc) > 0 {
+						k := r.Intn(len(wc))
+						wc[k] = "987654321987654321"
+						target = fmt.Sprintf("Proof.WiresCap[%d]", k)
+					} else {
+						jget(tree, "proof", "opening_proof").(map[string]any)["pow_witness"] = json.Number("424242")
+						target = "Proof.OpeningProof.PowWitness.Limb"
+					}
+					path2, _ := writeDoc(dir, "b_"+fname, tree)
+					defer os.Remove(path2)
+					p2, ref2, _ := readProofGuard(path2)
+					if ref1 || ref2 {
+						return fw.Violate("wellformed_document_refused", "proof pair "+c.ID)
+					}
+					l1, l2 := circ.Leaves(&p1), circ.Leaves(&p2)
+					o.Events += len(l1)
+					if len(l1) != len(l2) {
+						return fw.Violate("leaf_count_differs", c.ID)
+					}
+					for i := range l1 {
+						same := l1[i].Big().Cmp(l2[i].Big()) == 0
+						if l1[i].Path == target {
+							want := map[string]string{"P": "12345678901", "W": "987654321987654321", "O": "424242"}[target[:1]]
+							if target[:5] == "Proof" && target[6] == 'W' {
+								want = "987654321987654321"
+							} else if target[:5] == "Proof" {
+								want = "424242"
+							}
+							if l2[i].Big().String() != want {
+								return fw.Violate("second_document_not_reflected:proof", fmt.Sprintf("%s: %s is %s, document has %s", c.ID, target, l2[i].Big(), want))
+							}
+						} else if !same {
+							return fw.Violate("unrelated_position_changed:proof", l1[i].Path)
+						}
+					}
+					o.Inc("document_pairs_compared")
 				case "corrupt":
 					var cor corruption
 					for _, x := range c19Corruptions() {
